@@ -797,6 +797,15 @@ func c15Invite(c *mon.Ctx, r *gen.Rand, sc *simScenario, b *simBranch) {
 			// such an invite is refused as a whole)
 			stateFits := !(supplied && oddState != "" && s.t.EnforceCanon)
 			c15verdict(c, "invite", name, allTrue(vec) && stateFits, err == nil, vecName(names, vec), s.ver)
+			if err != nil && stateFits {
+				// a refused invite is not countersigned: the event the caller handed in carries no signature of the local
+				// server that it did not carry before
+				bsig := ref.MustParse(before).Get("signatures").Get(inviteeID.Server)
+				asig := ref.MustParse(ev.JSON()).Get("signatures").Get(inviteeID.Server)
+				if (bsig == nil) != (asig == nil) || (bsig != nil && !ref.Equal(bsig, asig)) {
+					c.Failf("invite:refused-event-was-countersigned", "HandleInvite refused the invite (%v) and left a signature of the local server on the event it was handed: %s", err, ref.Canon(asig))
+				}
+			}
 			if allTrue(vec) && err == nil {
 				for _, f := range []string{"IsKnownRoom", "CurrentMembership", "GetState", "UserIDQuerier", "Verifier"} {
 					fq := &c15querier{state: b.state, membership: membership, known: known, fail: f}
